@@ -1734,6 +1734,25 @@ gen_C12 = (lambda f: (lambda rng, tier: f(rng, tier) + R2.c12_extra(rng, tier)))
 
 
 # third round of seeded defects
-gen_C03 = (lambda f: (lambda rng, tier: f(rng, tier) + R3.c03_extra(rng, tier)))(gen_C03)
-gen_C07 = (lambda f: (lambda rng, tier: f(rng, tier) + R3.c07_extra(rng, tier)))(gen_C07)
-gen_C13 = (lambda f: (lambda rng, tier: f(rng, tier) + R3.c13_extra(rng, tier)))(gen_C13)
+def _plus(f, *extras):
+    def g(rng, tier):
+        out = f(rng, tier)
+        for x in extras:
+            out = out + x(rng, tier)
+        return out
+    return g
+
+
+gen_C01 = _plus(gen_C01, R3.c01_extra)
+gen_C02 = _plus(gen_C02, R3.c02_extra)
+gen_C03 = _plus(gen_C03, R3.c03_extra, R3.c03_wide)
+gen_C04 = _plus(gen_C04, R3.c04_extra)
+gen_C05 = _plus(gen_C05, R3.c05_extra)
+gen_C06 = _plus(gen_C06, R3.c06_extra)
+gen_C07 = _plus(gen_C07, R3.c07_extra, R3.c07_wide)
+gen_C08 = _plus(gen_C08, R3.c08_extra, R3.c08_big)
+gen_C10 = _plus(gen_C10, R3.c10_extra)
+gen_C13 = _plus(gen_C13, R3.c13_extra, R3.c13_hs)
+gen_C17 = _plus(gen_C17, R3.c17_extra)
+gen_C18 = _plus(gen_C18, R3.c18_extra)
+gen_C19 = (lambda f: (lambda rng, tier, probe=None: f(rng, tier, probe) + R3.c19_flush_faults(probe)))(gen_C19)
